@@ -6,9 +6,10 @@
    `repaired` = the code as it stands since the fix: commits 75f978a, 5a49f25 (C08) and a4dc5e5 (C07, keys by value)
    of /repo (proposed_fixes/C08-*.diff, C07-01-*.diff); `as_is` = the code before them, kept for the refutations.
    Inv st = every reference points to a container, and no container reaches itself. *)
-From Coq Require Import ZArith List Bool Lia.
+From Coq Require Import ZArith List Bool Lia Permutation Sorted.
 Import ListNotations.
-From SqfVerif Require Import Data.DataDefs Data.DataGraph Data.DataHeap Data.DataStep Data.DataTerm Data.DataFrame Data.DataProofs Data.DataCopy.
+From SqfVerif Require Import Data.DataDefs Data.DataGraph Data.DataHeap Data.DataStep Data.DataTerm Data.DataFrame Data.DataProofs Data.DataCopy
+  Data.DataSort Data.DataSortStep.
 
 (* The recursion test of d_array (path-based DFS, over any successor relation): a yes means
    that the tested container lies on no cycle and reaches none. *)
@@ -134,6 +135,63 @@ Theorem C08_copy_is_deep : forall st n a dst, Inv st ->
 Proof. exact copy_is_deep. Qed.
 Print Assumptions C08_copy_is_deep.
 
+(* ---- sort of a TABLE (an array of rows), ops_generic.cpp:736-817: in place, on the heap.
+   sort_table h asc l = Ok (TSorted l') says: the table passed the type checks (every element an array, every row of the
+   size and the element types of the first), and two rows that the comparator does not order are the same row object.
+   Then `table sort flag` leaves the table in its cell; the new content l' is a permutation of the old element VALUES - the
+   references to the row cells, no copies -, sorted by the comparator of the C++ (comp(later, earlier) is false for every
+   pair), and it is the ONLY sorted permutation (so the result does not depend on the algorithm behind std::sort); no other
+   cell changes, no variable is rebound, the heap stays well formed and acyclic.  Hence every name of the table observes
+   the new order, and every name of a row still refers to a cell that is an element of the table (and sees, and causes,
+   every later change of that row through any name). *)
+Theorem C08_sort_table_in_place : forall d st n asc a l l',
+  Inv st -> nth_error (st_vars st) n = Some (VRef a) -> nth_error (st_heap st) a = Some (CArr l) -> 1 < length l ->
+  sort_table (st_heap st) asc l = Ok (TSorted l') ->
+  let o := step d st (OpSort (OVar n) asc) in
+  let h' := st_heap (o_state o) in
+  o_status o = Done /\ o_diags o = [] /\ st_vars (o_state o) = st_vars st /\
+  Inv (o_state o) /\ length h' = length (st_heap st) /\
+  nth_error h' a = Some (CArr l') /\
+  (forall b, b <> a -> nth_error h' b = nth_error (st_heap st) b) /\
+  Permutation l l' /\
+  StronglySorted (fun x y => vrow_ltb h' asc y x = false) l' /\
+  (forall l2, Permutation l l2 -> StronglySorted (fun x y => vrow_ltb h' asc y x = false) l2 -> l2 = l') /\
+  (forall r, In (VRef r) l -> r <> a /\ In (VRef r) l' /\ nth_error h' r = nth_error (st_heap st) r).
+Proof. exact sort_table_step. Qed.
+Print Assumptions C08_sort_table_in_place.
+
+(* A table the type checks refuse (an element that is no array: one ExpectedArrayTypeMissmatch per such element; a row of
+   another size: ExpectedArraySizeMissmatch; a row with other element types: one ExpectedArrayTypeMissmatch per position,
+   the loop stops at the first such row) is left exactly as it was. *)
+Theorem C08_sort_table_refused_unchanged : forall d st n asc a l ds,
+  nth_error (st_vars st) n = Some (VRef a) -> nth_error (st_heap st) a = Some (CArr l) -> 1 < length l ->
+  sort_table (st_heap st) asc l = Ok (TRefused ds) ->
+  step d st (OpSort (OVar n) asc) = mk Done st ds VNil /\ ds <> [] /\
+  forall x, In x ds -> x = DExpectedArrayTypeMissmatch \/ x = DExpectedArraySizeMissmatch.
+Proof. exact sort_table_refused_step. Qed.
+Print Assumptions C08_sort_table_refused_unchanged.
+
+(* On a well-formed heap the model of the table sort never reaches its explicit outcome for undefined behaviour: no dangling
+   reference, and after the type checks the comparator never reads beyond the end of a row nor a string / float out of a
+   value of another type, for any pair of rows std::sort may hand it. *)
+Theorem C08_sort_table_defined : forall h asc l, hwf h -> Forall (vwf h) l -> exists r, sort_table h asc l = Ok r.
+Proof. exact sort_table_defined. Qed.
+Print Assumptions C08_sort_table_defined.
+
+(* The comparator on rows that passed the type checks (rows of one shape: the same kind - string, number, passed over - at
+   every position) is a strict weak ordering, ascending and descending: defined, irreflexive, asymmetric, and "not less" is
+   transitive.  NaN is in front of every number, -0 and 0 are equal. *)
+Theorem C08_row_comparator_strict_weak : forall asc,
+  (forall a, row_lt asc a a = Some false) /\
+  (forall a b, shape a = shape b -> exists r, row_lt asc a b = Some r) /\
+  (forall a b, shape a = shape b -> row_lt asc a b = Some true -> row_lt asc b a = Some false) /\
+  (forall a b c, shape a = shape b -> shape b = shape c ->
+     row_lt asc a b = Some false -> row_lt asc b c = Some false -> row_lt asc a c = Some false).
+Proof.
+  intros asc. split; [apply row_lt_irrefl|]. split; [apply row_lt_defined|]. split; [apply row_lt_asym|apply row_lt_ntrans].
+Qed.
+Print Assumptions C08_row_comparator_strict_weak.
+
 (* Index rules. *)
 Local Open Scope Z_scope.
 Theorem C08_set_grows_with_nils : forall l i v, zlen l <= i ->
@@ -194,3 +252,34 @@ Example ex_refused :
   let st := run repaired (init_state 4) (firstn 5 ex_history) in
   o_diags (step repaired st (OpPushBack (OVar 1) (OVar 2))) = [DArrayRecursion].
 Proof. vm_compute. reflexivity. Qed.
+
+(* ---- non-vacuity of the table sort: rows held by variables v0..v2 and by the table v3 (alias v4); NaN sorts in front, the
+   second column decides between the two rows whose first column is equal (0 and -0), the boolean column is passed over.
+   After the sort a row is changed through its own name: both names of the table show it. *)
+Definition ex_table : list op :=
+  [ OpAssign 0 (OLit (TArr [TNum (SHalf 0%Z); TStr [98%Z]; TBool true]));
+    OpAssign 1 (OLit (TArr [TNum SNegZero; TStr [97%Z]; TBool false]));
+    OpAssign 2 (OLit (TArr [TNum (SNaN 1%Z); TStr [122%Z]; TBool true]));
+    OpAssign 3 (OLit (TArr []));
+    OpPushBack (OVar 3) (OVar 0); OpPushBack (OVar 3) (OVar 1); OpPushBack (OVar 3) (OVar 2);
+    OpAssign 4 (OVar 3) ].
+Example ex_table_sorted :
+  let st := run repaired (init_state 5) ex_table in
+  match nth_error (st_vars st) 3 with
+  | Some (VRef a) => match nth_error (st_heap st) a with
+                     | Some (CArr l) => exists l', sort_table (st_heap st) true l = Ok (TSorted l') /\ l' = rev l /\ 1 < length l
+                     | _ => False end
+  | _ => False end.
+Proof. vm_compute. eexists. split; [reflexivity|]. split; [reflexivity|lia]. Qed.
+Example ex_table_observed :
+  let st := run repaired (init_state 5) (ex_table ++ [OpSort (OVar 4) true; OpPushBack (OVar 1) (OLit (TStr [120%Z]))]) in
+  map (fun v => match observe st v with Ok t => print_tree true t | _ => [] end) (firstn 2 (skipn 3 (st_vars st)))
+  = let t := print_tree true (TArr [TArr [TNum (SNaN 1%Z); TStr [122%Z]; TBool true];
+                                    TArr [TNum SNegZero; TStr [97%Z]; TBool false; TStr [120%Z]];
+                                    TArr [TNum (SHalf 0%Z); TStr [98%Z]; TBool true]]) in [t; t].
+Proof. vm_compute. reflexivity. Qed.
+Example ex_table_refused :
+  let st := run repaired (init_state 5) (ex_table ++ [OpPushBack (OVar 1) (OLit (TStr [120%Z]))]) in
+  o_diags (step repaired st (OpSort (OVar 3) false)) = [DExpectedArraySizeMissmatch] /\
+  o_state (step repaired st (OpSort (OVar 3) false)) = st.
+Proof. vm_compute. split; reflexivity. Qed.
